@@ -6,6 +6,8 @@
 
 namespace dnsref {
 
+size_t g_max_name_octets = 255;
+
 namespace {
 
 struct Rd {
@@ -50,7 +52,7 @@ struct Rd {
       if (p + 1 + c > w.size() || (!jumped && p + 1 + c > limit)) { err = "label runs past end at " + std::to_string(p); return false; }
       out.push_back(w.substr(p + 1, c));
       total += 1 + (size_t)c;
-      if (total + 1 > 255) { err = "name longer than 255 octets"; return false; }
+      if (total + 1 > g_max_name_octets) { err = "name longer than 255 octets"; return false; }
       p += 1 + (size_t)c;
     }
     return true;
